@@ -8,36 +8,34 @@ number, so `next L (b + 1) it ≠ outOfFuel` says: `next()` answers (an element,
 after at most `b` unproductive iterations.  `Prod it`: the source has no internal loop of its own
 (arrays, `count()`, `successors`, and `map` / `take_while` / `aggregate` / `with_count` of such).
 
-General statement (`next_work_bounded`): for every generator `g` without `zip`, every search limit `l` and
-every state reachable from `g.iter (some l)`, `next()` answers after at most `g.work l` unproductive
-iterations, where `work` multiplies the bound of the source by `l + 2` at every level that loops (filter,
-skip_until, skip, group, windows: a permit per iteration), by 2 at `repeat`, by the number of parts at a
-chain, and is 0 for sources: a polynomial in the limit whose degree is the nesting depth of loops, with
-coefficients from the program size.  The per-loop theorems below give the sharp constants over loop-free
-sources.  `zip` (a round pulls every part once: bounded by the number of parts times their bounds) is
-modelled and tied but has no theorem; it is the one adaptor the general statement leaves out.
+General statement (`next_work_bounded`): for every generator `g` of the model, every search limit `l` and every
+state reachable from `g.iter (some l)`, `next()` answers after at most `g.work l` unproductive iterations, where
+`work` multiplies the bound of the source by `l + 2` at every level that loops (filter, skip_until, skip, group,
+windows: a permit per iteration), by 2 at `repeat`, by the number of parts at a chain or a zip, and is 0 for
+sources: a polynomial in the limit whose degree is the nesting depth of loops, with coefficients from the
+program size.  The per-loop theorems below give the sharp constants over loop-free sources.
 -/
 import XrayProofs.GenBound
 import XrayModel.GenLimits
 namespace XrayModel.C10
 open XrayModel.Gen XrayModel.GenLimits
 
-/-- the general bound, nested loops included: from the fresh consumer iterator of `g` and from every state
-reachable from it, `next()` answers within `g.work l` unproductive iterations -/
-theorem next_work_bounded (l : Nat) (g : G) (h : g.nest = true) :
+/-- the general bound, nested loops included, for every generator: from the fresh consumer iterator of `g` and
+from every state reachable from it, `next()` answers within `g.work l` unproductive iterations -/
+theorem next_work_bounded (l : Nat) (g : G) :
     Bnd (some l) (g.work l) (g.iter (some l)) := by
-  rw [G.iter]; exact bnd_budget _ _ _ _ (work_bounded l g h)
+  rw [G.iter]; exact bnd_budget _ _ _ _ (work_bounded_any l g)
 
 /-- in particular the first `next()` of a consumer answers -/
-theorem next_work_bounded_first (l : Nat) (g : G) (h : g.nest = true) :
+theorem next_work_bounded_first (l : Nat) (g : G) :
     next (some l) (g.work l + 1) (g.iter (some l)) ≠ .outOfFuel :=
-  bnd_next (next_work_bounded l g h)
+  bnd_next (next_work_bounded l g)
 
 /-- … and so does every later one: the bound holds again after any number of steps -/
-theorem next_work_bounded_later (l : Nat) (g : G) (h : g.nest = true) (n : Nat) (s : It)
+theorem next_work_bounded_later (l : Nat) (g : G) (n : Nat) (s : It)
     (hs : after (some l) n (g.iter (some l)) = some s) :
     next (some l) (g.work l + 1) s ≠ .outOfFuel := by
-  have hb := next_work_bounded l g h
+  have hb := next_work_bounded l g
   suffices ∀ n it s, Bnd (some l) (g.work l) it → after (some l) n it = some s → Bnd (some l) (g.work l) s from
     bnd_next (this n _ s hb hs)
   intro n
